@@ -286,8 +286,11 @@ def run(ctx):
     if full.violation:
         ctx.notes.append("AbfShared.tla: the full property is violated by the mechanism (named deviation restart-drops-unshared-samples); TLC's shortest history: %s" % vlib.counterexample(full)[-600:])
     behs = []
-    for cfg, n in (("MCAbfShared_sim.cfg", 60 if quick else 1200), ("MCAbfShared_sim3.cfg", 30 if quick else 600)):
-        g = vlib.tlc("MCAbfShared", cfg, workers=8, simulate=n, depth=26, seed=ctx.seed, timeout=900)
+    sims = [("MCAbfShared_sim.cfg", 60 if quick else 1200), ("MCAbfShared_sim3.cfg", 30 if quick else 600)]
+    if not quick:
+        sims.append(("MCAbfShared_sim4.cfg", 300))      # four walkers: simulation mode only
+    for cfg, n in sims:
+        g = vlib.tlc("MCAbfShared", cfg, workers=8, simulate=n, depth=(40 if "sim4" in cfg else 26), seed=ctx.seed, timeout=900)
         ctx.add_tlc(g, "MCAbfShared generation (%s)" % cfg, exhaustive=False)
         behs += g.beh
     ctx.exhaustive = True
